@@ -31,7 +31,7 @@ theorem string_producers (s t : List Char) (σ : Store) :
       (callInput [] σ).2 = .ok (.str (trimSpace line))) := by
   refine ⟨rfl, rfl, ?_⟩
   intro line rest h
-  simp [callInput, h]
+  simp [callInput, inputPrompt, h]
 
 /-- consumers depend on the value only: truthiness, equality, coercions and printing are functions of `Val` -/
 theorem consumers_depend_on_value_only (σ : Store) (v w : Val) (h : v = w) (f : Nat) :
